@@ -144,3 +144,7 @@ for _op, _verify, _can, _args, _update in TRIPLES:
     CONTRACTS[_op] = contract('pokerkit.state.State.' + _op, 'C08')(
         type('O_' + _op, _bases, dict({'args': _argd, 'argnames': _names, 'verify': _verify,
                                        'update': 'pokerkit.state.State.' + _update}, **_extra)))
+
+OPS = {t[0] for t in TRIPLES}
+for _k in CONTRACTS.values():
+    globals()[_k.__name__] = _k          # addressable by name (replay files name the contract class)
